@@ -8,6 +8,7 @@ import (
 	"context"
 	"fmt"
 	"math/big"
+	"regexp"
 	"strings"
 	"testing"
 	"time"
@@ -119,18 +120,10 @@ func msgsExec(mode msgsMode) func(t *testing.T, ssc schedrun.Scenario, o vsched.
 			updsBefore := len(V.UpdatesSeen)
 			sentBefore, enBefore := len(w.Bus.Sent), len(w.Enabled)
 			// the victim's view of its channels when the adversarial phase starts
-			views := map[channel.ID]*mChanView{}
-			var viewOrder []channel.ID
-			addView := func(ch *client.Channel) {
-				views[ch.ID()] = &mChanView{Params: ch.Params().Clone(), State: ch.State().Clone(), PeerIdx: 1 - ch.Idx()}
-				viewOrder = append(viewOrder, ch.ID())
+			if sc.views == nil {
+				sc.snapshot()
 			}
-			if sc.led != nil {
-				addView(sc.led)
-			}
-			for _, c := range sc.vsubs {
-				addView(c)
-			}
+			views := sc.views
 			var crafts []mCrafted
 			obs.Items = make([]mItemObs, len(cases))
 			injectOne := func(i int) {
@@ -532,8 +525,8 @@ func msgsDigest(mode msgsMode) func(schedrun.Scenario, *vsched.Sched, any) strin
 				msgsCount("not_applicable", 1)
 			case it.NotExpr != "":
 				msgsCount("not_expressible", 1)
-				if msgsRes != nil && msgsRes.Seen("not_expressible", obs.Sender+"/"+it.Name) {
-					msgsRes.Note("not expressible: %s/%s: %.300s", obs.Sender, it.Name, it.NotExpr)
+				if msgsRes != nil && msgsRes.Seen("not_expressible", it.Name) {
+					msgsRes.Note("not expressible: %s: %.160s", it.Name, it.NotExpr)
 				}
 			default:
 				msgsCount("messages_injected", 1)
@@ -545,9 +538,9 @@ func msgsDigest(mode msgsMode) func(schedrun.Scenario, *vsched.Sched, any) strin
 			fmt.Fprintf(&sb, "%s na=%v ne=%v acc=%v cs=%v|", it.Name, it.NA, it.NotExpr != "", it.Acceptable, it.Countersigned)
 		}
 		if len(s.Panics) > 0 && msgsRes != nil {
-			site := panicSite(s.Panics[0])
-			if msgsRes.Seen("panic:"+site, ssc.Name) && msgsRes.NDistinct("panic:"+site) <= 12 {
-				msgsRes.Note("panic %s <- %s", site, ssc.Name)
+			site := msgsPanicSite(s.Panics[0])
+			if msgsRes.Seen("panic:"+site, obs.Sender+"/"+obs.Msg) {
+				msgsRes.Note("panic %s <- %s/%s (first at point %s)", site, obs.Sender, obs.Msg, obs.Pt)
 			}
 		}
 		switch mode.Prop {
@@ -564,12 +557,18 @@ func msgsDigest(mode msgsMode) func(schedrun.Scenario, *vsched.Sched, any) strin
 					if !it.Mut {
 						msgsCount("positive_controls_ok", 1)
 					}
+					if msgsRes != nil {
+						msgsRes.Seen("countersigned_acceptable", obs.Pt+"/"+it.Name)
+					}
 				}
 				if it.IsUpdate && !it.Countersigned && !it.Acceptable {
 					msgsCount("refused_unacceptable", 1)
 				}
 				if it.IsUpdate && !it.Countersigned && it.Acceptable {
 					msgsCount("acceptable_not_countersigned", 1)
+					if msgsRes != nil {
+						msgsRes.Seen("acceptable_not_countersigned", obs.Pt+"/"+it.Name)
+					}
 				}
 			}
 		case "C12":
@@ -624,7 +623,7 @@ func msgsCommonVerdicts(prop string, ssc schedrun.Scenario, s *vsched.Sched, obs
 		if harnessPanic(p) {
 			return []schedrun.Verdict{{Property: prop, Clause: "harness-error", Site: site, Detail: "the driver itself panicked (not a verdict about the code under test):\n" + firstLines(p, 20)}}, true
 		}
-		return []schedrun.Verdict{{Property: prop, Clause: "panic", Site: panicSite(p),
+		return []schedrun.Verdict{{Property: prop, Clause: "panic", Site: msgsPanicSite(p),
 			Detail: fmt.Sprintf("a goroutine of the client panicked after %s from %s at point %s (stage %s):\n%s", obs.Msg, obs.Sender, obs.Pt, obs.Stage, firstLines(p, 18))}}, true
 	}
 	if s.Capped {
@@ -655,6 +654,18 @@ func probeVerdicts(prop string, obs *msgsObs) (out []schedrun.Verdict) {
 			Detail: fmt.Sprintf("after %s from %s (and 60 s of quiet) honest requests no longer work: %s", obs.Msg, obs.Sender, strings.Join(bad, "; "))})
 	}
 	return out
+}
+
+var idxRangeRe = regexp.MustCompile(`\[\d+\] with length \d+`)
+
+// msgsPanicSite: panic message + innermost go-perun function, with the numbers of an index error
+// removed (one signature per site, whatever index the message provoked).
+func msgsPanicSite(p string) string {
+	site := panicSite(p)
+	if i := strings.LastIndex(site, "@"); i >= 0 {
+		return idxRangeRe.ReplaceAllString(site[:i], "[i] with length n") + site[i:]
+	}
+	return idxRangeRe.ReplaceAllString(site, "[i] with length n")
 }
 
 var _ = wallet.Sig(nil)
